@@ -957,3 +957,68 @@ def replay(ctx, path):
         still = rc != 0
     print("STILL FAILING" if still else "no longer failing")
     return 1 if still else 0
+
+
+# ------------------------------------------------------------------ C19: a quick-sized stream for the configuration replay
+def c19_stream():
+    """(harness, driver, fn, uses_bash) for props/C19.py: fn(ctx, exe, w) -> op lines (at most 4000).
+    The three stages of the quick generator are produced in full (later stages from the outputs of `exe`, the reference
+    build), then thinned: every oracle class keeps its first cases, the rest is sampled; the ops whose model side is slow
+    (PBKDF2 with >= 10000 iterations, bign verification / signing) and the very long lines are capped.
+    All ops are octet-level: nothing depends on the machine-word size `w`."""
+
+    class _Shim:
+        def __init__(self, ctx):
+            self.rng, self.tier, self.seed = ctx.rng, "quick", ctx.seed
+
+    def fn(ctx, exe, w):
+        def run_c(lines):
+            out, err, rc = ctx.run_lines(exe, lines)
+            if rc != 0 or len(out) != len(lines):
+                raise RuntimeError("c17 harness failed while building the C19 stream: " + err[-300:])
+            return out
+
+        sh, rng = _Shim(ctx), ctx.rng
+        st = {}
+        b1 = Bag()
+        sm_stage1(sh, b1, st)
+        bpki_stage1(sh, b1, st)
+        o1 = run_c(b1.ops)
+        b2 = Bag()
+        sm_stage2(sh, b2, st, o1)
+        bpki_stage2(sh, b2, st, o1)
+        b3 = Bag()
+        cvc_stage(sh, b3, run_c)
+        ops, keys = b1.ops + b2.ops + b3.ops, b1.key + b2.key + b3.key
+        CRYPTO = ("cvcwrap", "cvciss", "cvcunwrap", "cvcval", "cvcval2", "cvcmatch", "sigvfy", "pubcalc")
+
+        def cls(op):
+            t = op.split()
+            if t[0] in ("pkwrap", "shwrap") and int(t[4]) >= 10000:
+                return "pbkdf"
+            if t[0] in ("pkunwrap", "shunwrap") and "0202271" in t[1]:
+                return "pbkdf"
+            if len(op) > 20000:
+                return "long"
+            if t[0] in CRYPTO:
+                return "crypto"
+            return "plain"
+
+        cap = {"pbkdf": 3, "long": 3, "crypto": 110, "plain": 3800}     # the model side of the capped classes costs 0.1 .. 3 s per op
+        first, rest = [], []
+        seen = {}
+        for i, (o, k) in enumerate(zip(ops, keys)):
+            kk = (o.split()[0], k)
+            seen[kk] = seen.get(kk, 0) + 1
+            (first if seen[kk] <= 2 else rest).append(i)
+        rng.shuffle(rest)
+        used = {c: 0 for c in cap}
+        keep = []
+        for i in first + rest:
+            c = cls(ops[i])
+            if used[c] < cap[c]:
+                used[c] += 1
+                keep.append(i)
+        return [ops[i] for i in sorted(keep)][:4000]
+
+    return "harness/c17.c", "drv_c17", fn, False
